@@ -1017,6 +1017,10 @@ func main() {
 		printConsts()
 		return
 	}
+	if len(os.Args) > 1 && os.Args[1] == "scan" {
+		scanMain()
+		return
+	}
 	if len(os.Args) > 2 && (os.Args[1] == "preagg" || os.Args[1] == "mfile" || os.Args[1] == "compact" || os.Args[1] == "merge") { // one kind only (volume runs)
 		n, _ := strconv.Atoi(os.Args[2])
 		r := gen.FromEnv(7)
@@ -1131,6 +1135,12 @@ func main() {
 		c := Case{}
 		genMerge(r, &c)
 		runCase(&c)
+	}
+	// 6. one very large version-1 string block (a quarter of a second: every tier)
+	{
+		c := Case{}
+		runHugeV1(&c)
+		gen.Emit(&c)
 	}
 	// 4. multi-series files: trailer / meta-index ranges and row lookups through the reopened file
 	for i := 0; i < n/32; i++ {
